@@ -131,6 +131,19 @@ static void write_map (FILE *f, const char *name, const std::map<std::string, ui
 int main (int argc, char **argv) {
 	const char *so = NULL, *out = NULL, *replay = NULL, *hashes_out = NULL;
 	long cases = 1000; unsigned long seed = 1; int max_size = 100; bool dump = false;
+	if (argc >= 2 && std::string (argv[1]) == "--count-distinct") {
+		// merge helper for the driver: number of distinct 64-bit hashes in the given files
+		std::vector<uint64_t> all;
+		for (int i = 2; i < argc; i++) {
+			FILE *f = fopen (argv[i], "rb"); if (!f) continue;
+			uint64_t buf[4096]; size_t n;
+			while ((n = fread (buf, sizeof (uint64_t), 4096, f)) > 0) all.insert (all.end (), buf, buf + n);
+			fclose (f);
+		}
+		std::sort (all.begin (), all.end ());
+		printf ("%zu\n", (size_t) (std::unique (all.begin (), all.end ()) - all.begin ()));
+		return 0;
+	}
 	for (int i = 1; i < argc; i++) {
 		std::string a = argv[i];
 		auto next = [&] () -> const char * { if (i + 1 >= argc) { fprintf (stderr, "missing value for %s\n", a.c_str ()); exit (2); } return argv[++i]; };
